@@ -36,6 +36,7 @@ type verifMeta struct {
 	root     uint32
 	dir      uint32
 	children []verifChild
+	offsets  map[uint32]int64
 }
 
 var errVerifNotFound = errors.New("verif: not found")
@@ -43,7 +44,7 @@ var errVerifNotFound = errors.New("verif: not found")
 func (m *verifMeta) RootID() uint32           { return m.root }
 func (m *verifMeta) TOCDigest() digest.Digest { return "sha256:toc" }
 func (m *verifMeta) GetOffset(id uint32) (int64, error) {
-	return 0, nil
+	return m.offsets[id], nil
 }
 func (m *verifMeta) GetAttr(id uint32) (metadata.Attr, error) {
 	if id == m.dir || id == m.root {
